@@ -134,6 +134,12 @@ class MText:
     def __str__(self):
         return self.s
 
+    def __bool__(self):  # like str: the empty text is falsy (icalendar's vText is a str subclass)
+        return len(self.s) > 0
+
+    def __len__(self):
+        return len(self.s)
+
     def __contains__(self, c):
         return c in self.s
 
